@@ -249,6 +249,18 @@ func cmdCheck(args []string) int {
 		n0 := len(ex.obls)
 		t1 := time.Now()
 		err := ex.VerifyFunction(sp, mode)
+		// A contract's assigns clause havocs the heap components known so far; a component that this very run touched for
+		// the first time after such a havoc would have read its initial value. Generate the conditions again now that the
+		// components are known (until no new one appears).
+		for round := 0; round < 3 && err == nil; round++ {
+			known := len(heapSorts)
+			ex.obls = ex.obls[:n0]
+			ex.axioms = nil
+			err = ex.VerifyFunction(sp, mode)
+			if len(heapSorts) == known {
+				break
+			}
+		}
 		name := fnName(sp.Fn)
 		if mode == "*" && mainPass[sp] {
 			// second visit of a function already verified for this property's own clauses: keep only the new clauses
